@@ -95,6 +95,38 @@ func (w *World) allocSingleStore(a *ssa.Alloc) ssa.Value {
 	return fi.single[a]
 }
 
+// blockLocalStore: the value of the last direct store to cell a that precedes load ld in
+// ld's own block, provided a is used by direct loads and stores only.
+func blockLocalStore(a *ssa.Alloc, ld *ssa.UnOp) ssa.Value {
+	if refs := a.Referrers(); refs != nil {
+		for _, r := range *refs {
+			switch x := r.(type) {
+			case *ssa.Store:
+				if x.Addr != ssa.Value(a) {
+					return nil
+				}
+			case *ssa.UnOp, *ssa.DebugRef:
+			default:
+				return nil
+			}
+		}
+	}
+	b := ld.Block()
+	if b == nil {
+		return nil
+	}
+	var last ssa.Value
+	for _, in := range b.Instrs {
+		if in == ssa.Instruction(ld) {
+			return last
+		}
+		if st, ok := in.(*ssa.Store); ok && st.Addr == ssa.Value(a) {
+			last = st.Val
+		}
+	}
+	return nil
+}
+
 func hasStoreThrough(addr ssa.Value) bool {
 	refs := addr.Referrers()
 	if refs == nil {
@@ -161,6 +193,13 @@ func (w *World) Resolve(v ssa.Value) ssa.Value {
 						continue
 					}
 					if s, ok := w.memEnv[a]; ok && s != nil {
+						v = s
+						continue
+					}
+					// block-local forwarding (defer-spilled results: `*t = x; rundefers; r = *t; return r`):
+					// the last store to the cell earlier in the load's own block, for a cell that is
+					// only ever loaded and stored directly (not captured, no address taken)
+					if s := blockLocalStore(a, x); s != nil {
 						v = s
 						continue
 					}
